@@ -7,6 +7,7 @@ package gohlslib
 
 import (
 	"bytes"
+	"errors"
 	"fmt"
 	"net/http"
 	"net/url"
@@ -103,6 +104,13 @@ func (c muxCfg) pset(kind string, p int) paramSet {
 			case "sps":
 				out = base[1]
 				out.pps = base[0].pps
+			case "constraint":
+				// the same SPS with constraint_set4_flag and constraint_set5_flag set as well (the whole constraint byte belongs to
+				// the RFC 6381 string)
+				out = base[0]
+				out.sps = bytes.Clone(out.sps)
+				out.sps[2] |= 0x0c
+				out.codecStr = fmt.Sprintf("avc1.%02x%02x%02x", out.sps[1], out.sps[2], out.sps[3])
 			case "notiming":
 				// a minimal SPS without VUI (no timing info, so no frame rate): Baseline 3.0, 352x288, written out bit by bit:
 				// sps_id 0, log2_max_frame_num 4, poc type 2, 1 reference frame, 22x18 macroblocks, frame_mbs_only, no cropping, no VUI
@@ -593,6 +601,10 @@ func (mi *muxInst) videoData(u wunit) [][]byte {
 		if u.RA {
 			au = append(au, append([]byte{0x65}, payloadTail(u, 0)...))
 		} else {
+			if u.Seq%4 == 3 {
+				// every fourth ordinary picture starts with an access unit delimiter, as encoders and MPEG-TS sources deliver them
+				au = append(au, []byte{0x09, 0xf0})
+			}
 			if u.Seq%3 == 1 {
 				// every third ordinary picture comes with an SEI NAL unit carrying a recovery_point message (open-GOP
 				// encoders mark the pictures a decoder could start from this way): it is not an IDR picture all the same
@@ -689,6 +701,7 @@ type respRec struct {
 	stallUntil func() bool
 	stalled    bool
 	nWrites    int
+	TooBig     bool // the body passed respMaxBody and the response was cut off
 }
 
 func (w *respRec) Header() http.Header { return w.Hdr }
@@ -718,8 +731,16 @@ func (w *respRec) Write(p []byte) (int, error) {
 		w.stalled = true
 		vsched.ParkUntil(w.stallUntil, "a client that does not take the response body")
 	}
+	if w.Body.Len()+len(p) > respMaxBody {
+		// a response that never ends (a reader that makes no progress): the client hangs up
+		w.TooBig = true
+		return 0, errors.New("verif: response body larger than the harness takes, connection closed")
+	}
 	return w.Body.Write(p)
 }
+
+// respMaxBody: no scenario of the harnesses serves anything near this size.
+const respMaxBody = 48 << 20
 
 // muxGet issues an in-process GET; Status 0 means the muxer wrote nothing at all (unknown path).
 func muxGet(m *Muxer, pathAndQuery string) *respRec { return muxGetStalled(m, pathAndQuery, nil) }
